@@ -24,6 +24,7 @@ func runDev(args []string) (int, error) {
 	loadFindings()
 	if f, ok := devCmds[args[1]]; ok {
 		c.Prop = "C09"
+		c.devRun = true
 		if len(args) > 2 {
 			c.Prop = args[2]
 		}
